@@ -387,3 +387,44 @@ Proof.
   pose proof (write_ptr_safe fuel (mkW m0 segs rl) 0 0 p false D0 Hm RC R0 (R Hs) (SH p eq_refl)) as W.
   destruct (write_ptr fuel true (mkW m0 segs rl) 0 0 InSrc p false); [discriminate|discriminate|destruct W].
 Qed.
+
+(* ================================================================== NewPackedDecoder (streaming) *)
+(* The streaming Decoder over packed.Reader, for a packed stream P that unpacks (unpack P = Some
+   U, arbitrary content U): by the simulation of Frame/FrameSim.v it behaves like the plain
+   Decoder over U as long as messages come out, so every decoded message is msg_ok and safe to
+   read.  (For a packed stream that does NOT unpack the one-shot UnmarshalPacked reports an
+   error, see unmarshal_packed_then_read_safe; the streaming decoder on such a stream is covered
+   by C14's no-panic theorems only up to the point of corruption.) *)
+From CV Require Frame.FrameSim Frame.FramePackedThms Frame.FrameThms.
+
+Theorem pdecode_n_then_read_safe P U orc hc bc ru mx c fx n k :
+  bytes_ok P -> PK.unpack P = Some U -> 0 <= mx < FR.two64 -> repaired c fx -> (k < n)%nat ->
+  let outs_plain := snd (FR.decode_n (FR.mkD (FR.mkReader [U] PK.EOF) hc bc ru mx) n) in
+  let outs_packed := snd (FP.pdecode_n (FR.mkD (FP.p_init orc P) hc bc ru mx) n) in
+  CV.Frame.FrameSim.all_msgs (firstn k outs_plain) = true ->
+  let o := nth k outs_packed (FR.DEof, []) in
+  nth k outs_packed (FR.DEof, []) = nth k outs_plain (FR.DEof, []) /\
+  fst o <> FR.DPanic /\ forall segs, fst o = FR.DMsg segs -> msg_ok segs /\ read_safe c fx segs.
+Proof.
+  intros HP HU Hmx Hr Hk outs_plain outs_packed Hall o.
+  assert (bytes_ok (concat [U])) as HbU by (cbn [concat]; rewrite app_nil_r; eapply unpack_bytes_ok; eassumption).
+  pose proof (CV.Frame.FramePackedThms.st_sim_init orc P U [U] hc bc ru mx HP HU ltac:(cbn [concat]; apply app_nil_r)) as Hs.
+  pose proof (CV.Frame.FrameSim.gdecode_n_sim FP.preader FR.reader FP.pread_full FR.read_full CV.Frame.FrameSim.psim
+                CV.Frame.FramePackedThms.psim_rf n _ _ Hs) as [_ H2].
+  cbv zeta in H2. specialize (H2 k Hk).
+  rewrite <- CV.Frame.FramePackedThms.decode_n_gdecode_n in H2.
+  change (CV.Frame.FramePacked.gdecode_n FP.pread_full) with FP.pdecode_n in H2.
+  fold outs_plain in H2. fold outs_packed in H2. specialize (H2 Hall).
+  assert (nth k outs_packed (FR.DEof, []) = nth k outs_plain (FR.DEof, [])) as En.
+  { rewrite <- (CV.Core.BuilderFacts.nth_firstn_lt k (S k) outs_packed (FR.DEof, [])) by lia.
+    rewrite <- (CV.Core.BuilderFacts.nth_firstn_lt k (S k) outs_plain (FR.DEof, [])) by lia. rewrite H2. reflexivity. }
+  split; [exact En|]. subst o. rewrite En.
+  destruct (FR.decode_n (FR.mkD (FR.mkReader [U] PK.EOF) hc bc ru mx) n) as [st' outs] eqn:Ed.
+  unfold FR.decode_n in Ed.
+  pose proof (decode_then_read_safe [U] PK.EOF hc bc ru mx (repeat FR.OpDecode n) c fx st' outs HbU Hmx Hr Ed) as F.
+  assert (length outs = n) as Ln.
+  { pose proof (CV.Frame.FramePackedThms.gdecode_n_length FR.read_full n (FR.mkD (FR.mkReader [U] PK.EOF) hc bc ru mx)) as L.
+    rewrite <- CV.Frame.FramePackedThms.decode_n_gdecode_n in L. unfold FR.decode_n in L. rewrite Ed in L. exact L. }
+  cbn [snd] in outs_plain. subst outs_plain.
+  rewrite Forall_forall in F. apply F. apply nth_In. lia.
+Qed.
